@@ -16,17 +16,20 @@ Proof.
 Qed.
 
 (* ------------------------------------------------------------------ well-typed arguments *)
-Definition int_typed (tv : typed_value) : Prop := tv_is_float tv = false /\ is_fp (tv_type tv) = false.
+Definition int_typed (tv : typed_value) : Prop :=
+  tv_is_float tv = false /\ is_fp (tv_type tv) = false /\ tv_is_string tv = false.
 
 Inductive wt : ty -> typed_value -> Prop :=
 | wt_int tv : int_typed tv -> in_i32 (tv_value tv) -> wt TInt tv
 | wt_long tv : int_typed tv -> wt TLong tv
-| wt_dbl tv : tv_type tv = TDouble -> wt TDouble tv.
+| wt_dbl tv : tv_type tv = TDouble -> wt TDouble tv
+| wt_dbl_int tv : int_typed tv -> wt TDouble tv.   (* integer expression for a double parameter: C conversion *)
 
 (* the value the property demands the native function to see *)
 Definition exact_val (t : ty) (tv : typed_value) : cval :=
   match t with
-  | TInt => CInt (tv_value tv) | TLong => CLong (tv_value tv) | TDouble => CDouble (tv_dbl tv)
+  | TInt => CInt (tv_value tv) | TLong => CLong (tv_value tv)
+  | TDouble => CDouble (if tv_is_float tv || is_fp (tv_type tv) then tv_dbl tv else double_of_i64 (tv_value tv))
   | _ => CVoid
   end.
 Fixpoint exact_vals (ps : list ty) (tvs : list typed_value) : list cval :=
@@ -39,17 +42,19 @@ Lemma build_arg_double tv : tv_type tv = TDouble ->
   build_arg tv = mk_var TDouble (trunc_i64 (tv_dbl tv)) (tv_dbl tv).
 Proof. intro H. unfold build_arg. rewrite H. simpl. rewrite orb_true_r. reflexivity. Qed.
 
-Lemma build_arg_int tv : int_typed tv -> build_arg tv = mk_var (tv_type tv) (tv_value tv) 0.
-Proof. intros [H1 H2]. unfold build_arg. rewrite H1, H2. reflexivity. Qed.
+Lemma build_arg_int tv : int_typed tv ->
+  build_arg tv = mk_var (tv_type tv) (tv_value tv) (double_of_i64 (tv_value tv)).
+Proof. intros (H1 & H2 & H3). unfold build_arg. rewrite H1, H2, H3. reflexivity. Qed.
 
 Lemma spec_args_wt ps tvs : Forall2 wt ps tvs -> spec_args ps (map build_arg tvs) = exact_vals ps tvs.
 Proof.
   induction 1 as [|t tv ps tvs Hw _ IH]; [reflexivity|].
   simpl. f_equal; [|exact IH].
-  destruct Hw as [tv Hi Hr | tv Hi | tv Hd]; simpl.
+  destruct Hw as [tv Hi Hr | tv Hi | tv Hd | tv Hi]; simpl.
   - rewrite (build_arg_int tv Hi). simpl. now rewrite wrap32_id.
   - rewrite (build_arg_int tv Hi). reflexivity.
-  - rewrite (build_arg_double tv Hd). reflexivity.
+  - rewrite (build_arg_double tv Hd). simpl. rewrite Hd. simpl. rewrite orb_true_r. reflexivity.
+  - rewrite (build_arg_int tv Hi). simpl. destruct Hi as (H1 & H2 & _). rewrite H1, H2. reflexivity.
 Qed.
 
 Lemma Forall2_length' {A B} (R : A -> B -> Prop) l1 l2 : Forall2 R l1 l2 -> length l1 = length l2.
@@ -83,45 +88,56 @@ Section S.
     rewrite Hl. apply Nat.eqb_neq in Hn. rewrite Hn. reflexivity.
   Qed.
 
-  (* ---------------------------------------------------------------- the qualified call site *)
-  Theorem qualified_supported_end_to_end_l :
+  (* ---------------------------------------------------------------- both call sites *)
+  Lemma site_supported_l :
     casts_ok chain = true -> feeds_ok chain = true -> stores_ok chain = true ->
     forall st m f sig tvs,
       mem_nat m (st_loaded st) = true -> lookup_fn (st_fns st) m f = Some sig ->
-      in_scope (cs_ret sig) = true -> supported chain sig = true -> Forall2 wt (cs_params sig) tvs ->
-      qualified_call native chain ac st m f tvs =
+      supported chain sig = true -> Forall2 wt (cs_params sig) tvs ->
+      site_outcome (call_function native chain ac st m f (map build_arg tvs)) =
         (site_value (spec_result (cs_ret sig) (native m f sig (exact_vals (cs_params sig) tvs)) default_var),
          Some (mk_call sig (exact_vals (cs_params sig) tvs))).
   Proof.
-    intros H1 H2 H3 st m f sig tvs Hm Hl Hs Hsup Hw.
-    unfold qualified_call, call_function. rewrite Hm, Hl. simpl.
+    intros H1 H2 H3 st m f sig tvs Hm Hl Hsup Hw.
+    destruct (supported_plain chain H1 H2 H3 sig Hsup) as [Hs _].
+    unfold site_outcome, call_function. rewrite Hm, Hl. simpl.
     assert (L : length (map build_arg tvs) = length (cs_params sig)).
     { rewrite map_length. symmetry. eapply Forall2_length'; eauto. }
     rewrite L, Nat.eqb_refl, andb_false_r.
     destruct (supported_calls (native m f) chain sig (map build_arg tvs) Hsup) as [c Hc].
-    pose proof (dispatch_cast_sound _ _ H1 _ _ _ Hs Hc) as Hcast.
-    pose proof (dispatch_args_sound _ _ H1 H2 _ _ _ Hs L Hc) as Hargs.
-    destruct (dispatch_result_sound _ _ H1 H3 _ _ _ Hs Hc) as [_ Hres].
+    pose proof (dispatch_cast_sound _ _ H1 _ _ _ Hc) as Hcast.
+    pose proof (dispatch_args_sound _ _ H1 H2 _ _ _ L Hc) as Hargs.
+    destruct (dispatch_result_sound _ _ H1 H3 _ _ _ Hc) as [_ Hres].
     rewrite spec_args_wt in Hargs by exact Hw.
     rewrite Hres, Hc, Hargs. rewrite spec_result_type by exact Hs.
     destruct c as [cc ca]; simpl in *; subst.
     destruct (cs_ret sig); simpl in Hs; try discriminate; reflexivity.
   Qed.
 
-  Theorem qualified_unsupported_exits_l :
+  Lemma site_unsupported_l :
     forall st m f sig tvs,
       mem_nat m (st_loaded st) = true -> lookup_fn (st_fns st) m f = Some sig ->
       length tvs = length (cs_params sig) ->
       supported chain sig = false -> group_falls chain (cs_ret sig) = true ->
-      qualified_call native chain ac st m f tvs =
+      site_outcome (call_function native chain ac st m f (map build_arg tvs)) =
         (SExit (EUnsupported (cs_ret sig) (length (cs_params sig))), None).
   Proof.
     intros st m f sig tvs Hm Hl L Hsup Hf.
-    unfold qualified_call, call_function. rewrite Hm, Hl. simpl.
+    unfold site_outcome, call_function. rewrite Hm, Hl. simpl.
     rewrite map_length, L, Nat.eqb_refl, andb_false_r.
     destruct (unsupported_diag (native m f) chain sig (map build_arg tvs) Hsup Hf) as [He Ht].
     rewrite Ht, He, (unsupported_no_call _ _ _ _ Hsup). reflexivity.
   Qed.
+
+  Lemma qualified_is_site st m f tvs : mem_nat m (st_loaded st) = true ->
+    qualified_call native chain ac st m f tvs =
+    site_outcome (call_function native chain ac st m f (map build_arg tvs)).
+  Proof. intro H. unfold qualified_call. rewrite H. reflexivity. Qed.
+
+  Lemma unqualified_is_site st m f tvs : min_module (st_fns st) f None = Some m ->
+    unqualified_call native chain ac st f tvs =
+    site_outcome (call_function native chain ac st m f (map build_arg tvs)).
+  Proof. intro H. unfold unqualified_call. rewrite H. reflexivity. Qed.
 
   (* ---------------------------------------------------------------- histories *)
   Definition inv (e : env) (st : ffi_state) : Prop :=
@@ -222,7 +238,7 @@ Section S.
     forall ops st, incl ops all -> inv e st -> inv2 all st ->
     forall m f c, In (EvCall m f c) (run_history native chain ac e st ops) ->
       (exists syms, e m = Some syms /\ In f syms) /\
-      (exists s, declared all m f s /\ (in_scope (cs_ret s) = true -> k_cast c = s)).
+      (exists s, declared all m f s /\ k_cast c = s).
   Proof.
     intro H1. induction ops as [|o ops IH]; intros st Hincl I J m f c Hin; [contradiction|].
     assert (Hincl' : incl ops all) by (intros x Hx; apply Hincl; now right).
@@ -241,18 +257,24 @@ Section S.
             - destruct Hin as [Hin|[]]. discriminate. }
         assert (Hcf : exists mm, m = mm /\ f = f0 /\
                    o_call (call_function native chain ac st mm f0 (map build_arg tvs)) = Some c).
-        { destruct q.
+        { assert (Hso : forall mm, In (EvCall m f c)
+                     (match snd (site_outcome (call_function native chain ac st mm f0 (map build_arg tvs))) with
+                      | Some c0 => [EvCall (if q then m0 else mm) f0 c0] | None => [] end) ->
+                     m = (if q then m0 else mm) /\ f = f0 /\
+                     o_call (call_function native chain ac st mm f0 (map build_arg tvs)) = Some c).
+          { intros mm Hx. unfold site_outcome in Hx.
+            destruct (v_type (o_res (call_function native chain ac st mm f0 (map build_arg tvs)))); simpl in Hx;
+              (destruct (o_call (call_function native chain ac st mm f0 (map build_arg tvs))) as [c'|] eqn:Ec;
+               simpl in Hx; [destruct Hx as [Hx|[]]; inversion Hx; subst; auto | contradiction]). }
+          destruct q.
           - unfold qualified_call in Hin. destruct (negb (mem_nat m0 (st_loaded st))); simpl in Hin; [contradiction|].
-            destruct (v_type (o_res (call_function native chain ac st m0 f0 (map build_arg tvs)))); simpl in Hin;
-              (destruct (o_call (call_function native chain ac st m0 f0 (map build_arg tvs))) as [c'|] eqn:Ec;
-               simpl in Hin; [destruct Hin as [Hin|[]]; inversion Hin; subst; exists m; auto | contradiction]).
+            destruct (Hso m0 Hin) as (A & B & C). exists m0. auto.
           - unfold unqualified_call in Hin. destruct (min_module (st_fns st) f0 None) as [mm|]; simpl in Hin; [|contradiction].
-            destruct (o_call (call_function native chain ac st mm f0 (map build_arg tvs))) as [c'|] eqn:Ec;
-              simpl in Hin; [destruct Hin as [Hin|[]]; inversion Hin; subst; exists m; auto | contradiction]. }
+            destruct (Hso mm Hin) as (A & B & C). exists mm. auto. }
         destruct Hcf as (mm & -> & -> & Hc).
         apply call_function_call in Hc. destruct Hc as (sig & _ & Hl & Hd).
         apply lookup_fn_In in Hl. destruct I as [_ I2]. split; [now apply (I2 mm f0 sig)|].
-        exists sig. split; [now apply J|]. intro Hs. eapply dispatch_cast_sound; eauto.
+        exists sig. split; [now apply J|]. eapply dispatch_cast_sound; eauto.
       + destruct (is_exit _); [contradiction|]. eapply IH; eauto.
   Qed.
 
@@ -279,3 +301,24 @@ Section S.
     apply in_or_app. left. apply in_map. exact H.
   Qed.
 End S.
+
+(* a declaration with a pointer parameter is registered with TYPE_POINTER at that position *)
+Lemma decl_sig_params d : cs_params (decl_sig d) = map dty_ty (snd (decl_ctype d)).
+Proof.
+  unfold decl_sig, decl_ctype. simpl. rewrite map_map. apply map_ext. intros [t b]. destruct b; reflexivity.
+Qed.
+
+Lemma decl_sig_pointer d p : In p (fd_params d) -> snd p = true -> In TPointer (cs_params (decl_sig d)).
+Proof.
+  intros Hin Hp. unfold decl_sig. simpl. apply in_map_iff. exists p. rewrite Hp. auto.
+Qed.
+
+Lemma not_plain_unsupported chain : casts_ok chain = true -> feeds_ok chain = true -> stores_ok chain = true ->
+  forall sig, (in_scope (cs_ret sig) = false \/ exists t, In t (cs_params sig) /\ ~ plain t) ->
+  supported chain sig = false.
+Proof.
+  intros H1 H2 H3 sig H. destruct (supported chain sig) eqn:E; [|reflexivity]. exfalso.
+  destruct (supported_plain chain H1 H2 H3 sig E) as [Hs Hp].
+  destruct H as [H|(t & Ht & Hn)]; [congruence|].
+  rewrite Forall_forall in Hp. exact (Hn (Hp t Ht)).
+Qed.
